@@ -30,7 +30,17 @@ def growth_rules(chk, prog, eff, G, label):
         f = prog.fn(name)
         where = "%s:%d" % (f.file, f.line)
         forms = set()
-        for k, pa in enumerate(cache.get(name, inline_static=True)):
+        # a new capacity computed by a (pure) library routine is followed into that routine
+        extra = set()
+        for _round in range(2):
+            for pa in cache.get(name, inline=O.static_callees(prog, eff, name) | extra):
+                for R_ in pa.calls("_cbor_realloc_multiple"):
+                    nc = R_.args[2]
+                    if isinstance(nc, tuple) and nc[0] == "call" and nc[1] in prog.funcs and nc[1] not in eff.transitive_callees(nc[1]):
+                        S_ = eff.summ[nc[1]]
+                        if not S_["writes"] and not S_["allocates"] and not S_["frees"]:
+                            extra.add(nc[1])
+        for k, pa in enumerate(cache.get(name, inline=O.static_callees(prog, eff, name) | extra)):
             st = pa.st
             slot_stores = [(e,) + index_of(e.args[0]) for e in pa.events if e.kind == "store" and index_of(e.args[0])[1] is not None]
             if not slot_stores:
@@ -114,6 +124,56 @@ def growth_rules(chk, prog, eff, G, label):
     return nsites
 
 
+def check_capacity_field(chk, rule, prog, eff, cache, floor=8):
+    """Representation invariant behind 'size never exceeds allocated capacity': whenever a freshly (re)allocated block is
+    installed as a container's storage (item.data, or the chunk table of a chunked string), the capacity field that sits
+    next to it is written on the same path - with the very element count of the request where the request has one.
+    Quantified over every path of every library function (static helpers inlined)."""
+    data_off = prog.field_offset("cbor_item_t", "data")
+    meta_off = prog.field_offset("cbor_item_t", "metadata")
+    chunks_off = prog.field_offset("cbor_indefinite_string_data", "chunks")
+    ccap_off = prog.field_offset("cbor_indefinite_string_data", "chunk_capacity")
+    pairs = {data_off: meta_off + prog.field_offset("_cbor_array_metadata", "allocated"), chunks_off: ccap_off}
+    n = 0
+    # unit-internal helpers are judged in the context of the functions they are inlined into
+    in_context = set()
+    for g in prog.lib_funcs():
+        in_context |= O.static_callees(prog, eff, g.name)
+    for f in prog.lib_funcs():
+        if f.name in in_context:
+            continue
+        for k, pa in enumerate(cache.get(f.name, inline_static=True)):
+            allocs = {}
+            for e in pa.events:
+                if e.kind == "call" and e.res is not None:
+                    if e.callee in ("_cbor_alloc_multiple", "_cbor_realloc_multiple"):
+                        allocs[e.res] = (e, e.args[-1])
+                    elif e.ckind == "alloc" and e.callee in ("_cbor_malloc", "_cbor_realloc"):
+                        allocs[e.res] = (e, None)
+            if not allocs:
+                continue
+            for e in pa.events:
+                if e.kind != "store" or e.args[1] not in allocs:
+                    continue
+                b, o = ptr_key(e.args[0])
+                if o not in pairs:
+                    continue
+                if o == chunks_off and not (isinstance(b, tuple) and (b[0] in ("ld", "call", "alloca"))):
+                    continue
+                ae, cnt = allocs[e.args[1]]
+                caps = [x for x in pa.events if x.kind == "store" and ptr_key(x.args[0]) == (b, pairs[o])]
+                n += 1
+                if cnt is not None:
+                    ok = bool(caps) and caps[-1].args[1] == cnt
+                    det = "capacity field := %s, block holds %s element(s)" % (DR.fmt_term(caps[-1].args[1]) if caps else "not written", DR.fmt_term(cnt))
+                else:
+                    ok = bool(caps) or pa.st.is_defined(P.mkptr(b, pairs[o]), 8)
+                    det = "capacity / length field not written although a new block of %s bytes is installed" % DR.fmt_term(ae.args[-1])
+                chk.ob(rule, "%s path %d: a newly installed block comes with its capacity" % (f.name, k), ok, e.ins.loc(), fn=f.name,
+                       key="%s:capfield:%d" % (f.name, e.ins.id), detail="" if ok else det, path=pa.block_lines() if not ok else None)
+    chk.floor(rule, "installations of fresh blocks on paths", n, floor)
+
+
 def run(ctx, chk):
     prog = ctx.prog()
     eff = ctx.effects(prog)
@@ -189,6 +249,40 @@ def run(ctx, chk):
             pr = ctx.prog(overrides={"CBOR_BUFFER_GROWTH": g2}, with_controls=False)
             growth_rules(chk, pr, ctx.effects(pr), g2, "G=%d" % g2)
         chk.extra["growth_factors_checked"] = [G, 3, 4]
+    # ---- bounded: a definite container is never grown
+    import typestate
+    H_, PA_, _IF, _ = ctx.typestate()
+    CS = typestate.CallSites(prog, eff, cache, H_, PA_)
+    chk.rule("C12.bounded", "definite containers are never reallocated: in the insertion routines of the kinds that have a definite "
+                            "flavour, a reallocation (and the capacity update) happens only on paths that have established the "
+                            "indefinite flavour of the container")
+    nb = 0
+    cap_offs = {off_meta + prog.field_offset("_cbor_array_metadata", "allocated"), off_meta + prog.field_offset("_cbor_map_metadata", "allocated")}
+    for name in GROW_OPS:
+        f = prog.fn(name)
+        for k, pa in enumerate(cache.get(name, inline_static=True)):
+            grows = [e for e in pa.events if e.kind == "call" and (e.callee in ("_cbor_realloc_multiple", "_cbor_realloc", "_cbor_alloc_multiple")
+                                                                     or (e.ckind == "alloc" and e.callee != "_cbor_free"))]
+            if not grows:
+                continue
+            tys_, _iw, _fw, fl = CS.summary(f, pa, ("arg", 0), upto=grows[0].nfacts)
+            if not tys_ or not (tys_ & set(PA_.flavour_types)):
+                continue
+            has_definite = {t_ for t_ in tys_ if t_ in (prog.enum("cbor_type")["CBOR_TYPE_ARRAY"], prog.enum("cbor_type")["CBOR_TYPE_MAP"])}
+            if not has_definite:
+                continue     # chunked strings: the insertion routine is only defined for the indefinite flavour (asserted)
+            nb += 1
+            ok = fl == {1}
+            chk.ob("C12.bounded", "%s path %d: storage grows only for the indefinite flavour" % (name, k), ok, grows[0].ins.loc(), fn=name,
+                   key="%s:bounded:%d" % (name, grows[0].ins.id),
+                   detail="" if ok else "the container may be definite here (flavours possible: %s): a definite container would be reallocated "
+                                        "and accept more entries than it was created for" % sorted(fl), path=pa.block_lines() if not ok else None)
+    chk.floor("C12.bounded", "growth paths of array/map insertion", nb, 2)
+
+    chk.rule("C12.capacity-field", "whenever a freshly (re)allocated block becomes a container's storage, the capacity field next to it is "
+                                   "written on the same path, with the element count of the request (every function, every path)")
+    check_capacity_field(chk, "C12.capacity-field", prog, eff, cache)
+
     # ---- value slot
     f = prog.fn("cbor_map_add")
     for k, pa in enumerate(cache.get("cbor_map_add")):
